@@ -850,6 +850,21 @@ def eval_while(ctx, eqn, ins):
     cnc, bnc = p["cond_nconsts"], p["body_nconsts"]
     cj, bj = p["cond_jaxpr"], p["body_jaxpr"]
     cconsts, bconsts, state = ins[:cnc], ins[cnc:cnc + bnc], list(ins[cnc + bnc:])
+    hook = getattr(ctx, "while_summary", None)
+    if hook is not None:
+        # loop-invariant summary (DESIGN 8.2): hook(ctx, eqn, entry_carry) -> exit carry (list of SV, normally fresh variables on
+        # which the harness assumes its invariant J) or None to unroll as usual.  The harness owes the two side obligations
+        # J(entry carry) and "J & cond => J after the loop body" (proved on the real body function); here the exit condition
+        # not cond(exit carry) is added to the assumptions.  Partial correctness: termination of the loop is not claimed.
+        r = hook(ctx, eqn, state)
+        if r is not None:
+            r = list(r)
+            c = eval_jaxpr(ctx, cj.jaxpr, cj.consts, list(cconsts) + r)[0]
+            if c.shape == ():
+                cz = bool(c.a) if c.conc else c.a.reshape(-1)[0]
+                ctx.assumptions.append(z3.Not(cz) if is_sym(cz) else z3.BoolVal(not cz))
+            ctx.stats["loop_summaries"] = ctx.stats.get("loop_summaries", 0) + 1
+            return r
     for it in range(ctx.max_unroll + 1):
         c = eval_jaxpr(ctx, cj.jaxpr, cj.consts, list(cconsts) + state)[0]
         batched = c.shape != ()
